@@ -233,6 +233,18 @@ def coq_properties(pid):
     res["missing_print_assumptions"] = [n for n in names if n not in amap and not n.endswith("_nonvacuous")
                                         and not n.startswith("ex_")]
     res["ok"] = not res["audit"]
+    if os.environ.get("VERIF_TIER_ACTIVE") == "thorough":
+        # independent re-check of the compiled property file and everything it depends on, with the axiom summary
+        with Lock("coq"):
+            rc, ck = sh(["coqchk", "-silent", "-o", "-R", "theories", "Verif", "Verif.Properties.%s" % pid], cwd=COQ, timeout=3600)
+        summary = ck[ck.find("CONTEXT SUMMARY"):] if "CONTEXT SUMMARY" in ck else ck[-1500:]
+        m = re.search(r"\* Axioms:\s*(.*?)\n\s*\n", summary, re.S)
+        res["coqchk"] = {"ok": rc == 0, "cmd": "coqchk -silent -o -R theories Verif Verif.Properties.%s" % pid,
+                         "axioms": (m.group(1).strip() if m else "?"), "summary": " ".join(summary.split())[:600]}
+        res["cmd"] += " ; " + res["coqchk"]["cmd"]
+        if rc != 0:
+            res["ok"] = False
+            res["log"] = ck[-4000:]
     res["wall_s"] = time.time() - t0
     return res
 
@@ -431,6 +443,7 @@ def proof_coverage(proof):
                      for t in ths],
         "axioms_used": axioms,
         "audit_hits": proof["audit"],
+        "coqchk": proof.get("coqchk", "not run in this tier (thorough only)"),
     }
 
 
